@@ -84,6 +84,98 @@ package meta
 //@   pureeffect
 //@   requires [type_counters_follow_the_index_not_the_marks] a1 == payloadCounter
 
+// The tombstone branch of put marks the target and its children; its share of the counter
+// diff must agree with what the index will hold afterwards (the recount's definitions):
+// the garbage counter counts the stored objects that carry a mark (the existing tests pin
+// this: a tombstone for an unknown target leaves it at 0), so every member whose header is
+// stored and that gets its mark now counts once; the container's payload estimate loses the
+// payload of exactly the members that are stored physical objects and become marked now
+// (not of already marked ones - that was taken off before).
+//@ ghost pred memberStatus() uint8
+//@ ghost pred memberHeaderStored() bool
+//@ ghost pred memberPhysical() bool
+//@ ghost pred memberPayloadSize() uint64
+//@ callrule c02_tombstone_collaborators in handleObjectWithAssociation
+//@   property C02
+//@   callee (*bbolt.Cursor).*, (*bbolt.Bucket).*, metabase.fetchTypeForID, metabase.collectChildren, metabase.objectLocked, metabase.objectStatus, metabase.mkGarbageKey, (object.Object).*, (*object.Object).*, (*id.Address).*, (id.ID).*
+//@   pureeffect
+//@ callrule c02_member_status in handleObjectWithAssociation
+//@   property C02
+//@   callee metabase.inGarbage
+//@   pureeffect
+//@   defines result == memberStatus()
+//@ callrule c02_member_header in handleObjectWithAssociation
+//@   property C02
+//@   callee metabase.get
+//@   pureeffect
+//@   defines (err == nil) == memberHeaderStored()
+//@ callrule c02_member_physical in handleObjectWithAssociation
+//@   property C02
+//@   callee metabase.getObjAttribute
+//@   pureeffect
+//@   defines (string(result) == binPropMarker) == memberPhysical()
+//@ callrule c02_member_size in handleObjectWithAssociation
+//@   property C02
+//@   callee (object.Object).PayloadSize, (*object.Object).PayloadSize
+//@   pureeffect
+//@   defines result == memberPayloadSize()
+//@ func handleObjectWithAssociation
+//@   property C02
+//@   loop 1 invariant -1 <= rangeindex && rangeindex < len(children) && 0 <= inhumed && inhumed <= rangeindex + 1
+//@   loop 1 iteration [every_stored_member_marked_now_is_counted_once] inhumed == old(inhumed) + ite(memberHeaderStored() && memberStatus() == statusAvailable, 1, 0)
+//@   loop 1 iteration [payload_taken_off_only_for_members_marked_now] diff.Payload != old(diff.Payload) ==> memberHeaderStored() && memberStatus() == statusAvailable
+//@   loop 1 iteration [payload_of_every_stored_physical_member_marked_now_is_taken_off] memberHeaderStored() && memberStatus() == statusAvailable && memberPhysical() ==> diff.Payload == old(diff.Payload) - int64(memberPayloadSize())
+
+// Every counter of the recount is derived from its own index: the first index walk of
+// syncContainerCounters is over the PHYSICAL index, the second over the ROOT index (one
+// root per entry, second range body), then the three type walks.
+//@ ghost field indexWalks(x int) int
+//@ callrule c02_recount_walks_each_index in syncContainerCounters
+//@   property C02
+//@   callee metabase.iterAttrVal
+//@   pureeffect
+//@   assigns indexWalks
+//@   requires [first_walk_is_over_the_physical_index] indexWalks(0) == 0 ==> a1 == object.FilterPhysical
+//@   requires [second_walk_is_over_the_root_index] indexWalks(0) == 1 ==> a1 == object.FilterRoot
+//@   requires [then_the_type_index] indexWalks(0) >= 2 ==> a1 == object.FilterType
+//@   defines indexWalks(0) == old(indexWalks(0)) + 1
+//@ func syncContainerCounters
+//@   property C02
+//@   valid indexWalks(0) == 0
+//@ func syncContainerCounters$2
+//@   property C02
+//@   ensures [one_root_per_root_index_entry] deref(rootCounter) == old(deref(rootCounter)) + 1
+
+// The recount must use the same meaning of the garbage counter as the live updates (above):
+// a garbage key counts only if it belongs to an object stored here. The third range body of
+// syncContainerCounters is the loop over the garbage keys.
+//@ ghost pred garbageKeyOfStoredObject() bool
+//@ callrule c02_recount_looks_the_marked_object_up in syncContainerCounters$3
+//@   property C02
+//@   callee metabase.getObjAttribute, metabase.fetchTypeForID, metabase.fetchTypeForIDWBuf
+//@   pureeffect
+//@   optional
+//@   defines garbageKeyOfStoredObject()
+//@ func syncContainerCounters$3
+//@   property C02
+//@   ensures [recount_counts_marks_of_stored_objects_only] deref(gcCounter) != old(deref(gcCounter)) ==> garbageKeyOfStoredObject()
+
+// put counts an object as new (PHY, ROOT, type, payload) only when it is not in the index
+// yet. db.exists answering "not found" does not establish that: it answers so for an
+// object that is indexed and carries a garbage mark, too. Only a look-up of the index entry
+// itself does.
+//@ ghost pred headerAbsentFromIndex() bool
+//@ callrule c02_put_index_lookup in (*DB).put
+//@   property C02
+//@   callee metabase.fetchTypeForID, metabase.fetchTypeForIDWBuf
+//@   pureeffect
+//@   optional
+//@   defines errIs(err, errObjTypeNotFound) ==> headerAbsentFromIndex()
+//@ callrule c02_put_counts_new_objects_only in (*DB).put
+//@   property C02
+//@   callee metabase.applyDiff
+//@   requires [object_is_not_indexed_yet] headerAbsentFromIndex()
+
 //@ ghost pred metaDiffGC() int
 //@ ghost pred metaDiffPhy() int
 //@ ghost pred metaDiffPayload() int64
